@@ -133,6 +133,7 @@ fn main() {
     if args.part_on("lists") {
         all_lists_tok(&mut st, args.maxn);
         all_lists_u32(&mut st, args.maxn);
+        all_lists_ztok(&mut st, args.maxn);
     }
     if args.part_on("repeats") {
         all_repeats(&mut st, args.maxn);
